@@ -453,3 +453,40 @@ fires('m118-uc-alias-read-direct', ['C09'], [(CORE, "        use_channel = kwarg
 fires('m119-fmt-not-normalised', ['C09'], [(CORE, "        params[\"audio_format\"] = params.get(\"audio_format\", params.get(\"fmt\"))\n", "        params[\"audio_format\"] = params.get(\"fmt\", params.get(\"audio_format\"))\n")])
 silent('t110-alias-locals', ['C09', 'C06'], [(CORE, "        use_channel = kwargs.get(\"use_channel\", kwargs.get(\"uc\"))\n        validator = AudioEnergyValidator(\n            energy_threshold, source.sw, source.ch, use_channel=use_channel\n        )",
                                               "        uc = kwargs.get(\"use_channel\", kwargs.get(\"uc\"))\n        validator = AudioEnergyValidator(\n            energy_threshold, source.sw, source.ch, use_channel=uc\n        )")])
+
+# ------------------------------------------------------------------ C16 slicing
+fires('m120-offset-times-width-only', ['C16'], [(CORE, "            offset = index.stop * bytes_per_sample\n", "            offset = index.stop * self.sample_width\n")])
+fires('m121-seconds-start-round', ['C16'], [(CORE, "        start_sample = int(start_s * sr)\n", "        start_sample = round(start_s * sr)\n")])
+fires('m122-onset-from-stop', ['C16'], [(CORE, "        onset = start_sample * bytes_per_sample\n", "        onset = (stop_sample or 0) * bytes_per_sample\n")])
+fires('m123-negative-start-unclamped', ['C16'], [(CORE, "            start_sample = max(start_sample + len_samples, 0)\n        onset", "            start_sample = start_sample + len_samples\n        onset")],
+      'start below -len wraps around a second time')
+fires('m124-step-allowed', ['C16'], [(CORE, "    if not isinstance(index, slice) or index.step is not None:\n", "    if not isinstance(index, slice):\n")])
+fires('m125-millis-div-100', ['C16'], [(CORE, "        start_sec = start_ms / 1000\n", "        start_sec = start_ms / 100\n")])
+fires('m126-len-no-channels', ['C16'], [(CORE, "        return len(self.data) // (self.sample_width * self.channels)\n", "        return len(self.data) // self.sample_width\n")])
+fires('m127-seconds-stop-int', ['C16'], [(CORE, "        stop_sample = None if stop_s is None else round(stop_s * sr)\n", "        stop_sample = None if stop_s is None else int(stop_s * sr)\n")])
+fires('m128-stop-zero-means-end', ['C16'], [(CORE, "        if stop_sample is not None:\n            if stop_sample < 0:", "        if stop_sample:\n            if stop_sample < 0:")], 'region[a:0] returns everything from a')
+fires('m129-stop-normalised-unclamped', ['C16'], [(CORE, "                stop_sample = max(stop_sample + len_samples, 0)\n            offset = index.stop * bytes_per_sample", "                stop_sample = stop_sample + len_samples\n            offset = stop_sample * bytes_per_sample")])
+fires('m130-valueerror-on-bad-type', ['C16'], [(CORE, "        if index is not None and not isinstance(index, types):\n            raise TypeError(err_msg)", "        if index is not None and not isinstance(index, types):\n            raise ValueError(err_msg)")])
+silent('t120-offset-uses-normalised-stop', ['C16'], [(CORE, "            offset = index.stop * bytes_per_sample\n", "            offset = stop_sample * bytes_per_sample\n")], 'normalised (clamped) stop is equivalent to the raw one')
+silent('t121-no-start-normalisation', ['C16'], [(CORE, "        if start_sample < 0:\n            start_sample = max(start_sample + len_samples, 0)\n        onset", "        onset")], 'bytes slicing already has Python semantics for negative whole-sample offsets')
+
+# ------------------------------------------------------------------ C17 region algebra
+fires('m140-check-no-channels', ['C17'], [(CORE, """        if other.ch != self.ch:
+            raise AudioParameterError(
+                "Can only concatenate AudioRegions of the same "
+                "number of channels ({} != {})".format(self.ch, other.ch)
+            )
+""", "")])
+fires('m141-add-no-check', ['C17'], [(CORE, "        self._check_other_parameters(other)\n        data = self.data + other.data\n", "        data = self.data + other.data\n")])
+fires('m142-eq-no-width', ['C17'], [(CORE, "            and (self.sw == other.sw)\n", "")])
+fires('m143-not-frozen', ['C17'], [(CORE, "@dataclass(frozen=True)\nclass AudioRegion(object):", "@dataclass(frozen=False)\nclass AudioRegion(object):")])
+fires('m144-add-reversed', ['C17'], [(CORE, "        data = self.data + other.data\n", "        data = other.data + self.data\n")])
+fires('m145-join-skips-check', ['C17'], [(CORE, "            other.data for other in self._check_iter_others(others)\n", "            other.data for other in others\n")])
+fires('m146-silence-int', ['C17', 'C13'], [(CORE, "    size = round(duration * sampling_rate) * sample_width * channels\n", "    size = int(duration * sampling_rate) * sample_width * channels\n")])
+fires('m147-div-gap', ['C17'], [(CORE, "            sub_regions.append(self[onset:offset])\n            onset = offset\n", "            sub_regions.append(self[onset:offset])\n            onset = offset + 1\n")])
+fires('m148-check-compares-sw-with-ch', ['C17'], [(CORE, "        if other.sw != self.sw:\n", "        if other.sw != self.ch:\n")])
+silent('t141-check-after-concat', ['C17'], [(CORE, "        self._check_other_parameters(other)\n        data = self.data + other.data\n        return AudioRegion(data, self.sr, self.sw, self.ch)", "        data = self.data + other.data\n        self._check_other_parameters(other)\n        return AudioRegion(data, self.sr, self.sw, self.ch)")], 'still raises before anything is returned')
+fires('m150-mul-mutates-cache', ['C17'], [(CORE, "        data = self.data * n\n        return AudioRegion(data, self.sr, self.sw, self.ch)", "        data = self.data * n\n        object.__setattr__(self, \"_last_mul\", n)\n        return AudioRegion(data, self.sr, self.sw, self.ch)")])
+fires('m151-join-filter-empty', ['C17'], [(CORE, "            other.data for other in self._check_iter_others(others)\n", "            other.data for other in self._check_iter_others(others) if len(other)\n")], 'empty regions no longer contribute their separator')
+silent('t142-check-iter-yields-before-check', ['C17'], [(CORE, "            self._check_other_parameters(other)\n            yield other\n", "            yield other\n            self._check_other_parameters(other)\n")])
+silent('t140-eq-order', ['C17'], [(CORE, "            (self.data == other.data)\n            and (self.sr == other.sr)", "            (self.sr == other.sr)\n            and (self.data == other.data)")])
